@@ -859,7 +859,7 @@ def _expect(site, spec_t, obj, fails, check_serial=True):
             ser = obj._to_serial()
         except Exception:  # noqa: BLE001  (an argument that cannot be serialised: no serialised bound to check)
             return
-        if ser.bound != (TypeBound.Copyable if want else TypeBound.Any):
+        if ser.bound != got:  # "the bound written into a serialized extension type equals the computed one"
             fails.append(Failure("ExtType._to_opaque", "serialised-bound-differs", f"serialised {ser.bound}, computed {got}"))
 
 
